@@ -25,6 +25,23 @@ def encode_py(pr, t, values, d):
         drive.unload_py(d)
 
 
+def c_names_collide(pr):
+    """Two definitions of the import closure flatten to the same C identifier (scope path concatenated)."""
+    seen = set()
+
+    def walk(decls, prefix):
+        for d in decls:
+            if d["d"] in ("message", "enum", "alias", "const"):
+                flat = (prefix + d["name"]).lower().replace("_", "")
+                if flat in seen:
+                    return True
+                seen.add(flat)
+                if d["d"] == "message" and walk(d["body"], prefix + d["name"]):
+                    return True
+        return False
+    return any(walk(decls, "") for decls in pr["files"].values())
+
+
 def main(tier, replay=None):
     rep = Report("C12", tier)
     seed = common.seed()
@@ -91,6 +108,13 @@ def main(tier, replay=None):
                     events.append({"ev": "SameLayout", "t1": prev["t"], "t2": t})
                     srcs.append(vi)
                 try:
+                    sms = [gen.sm_tree(t, val) for val in ver["vals"]]
+                except (TypeError, ValueError, IndexError, KeyError, AttributeError):
+                    # the harness's values no longer have the shape of the type the specification resolves (the
+                    # rewrite captured a reference): the SameLayout event above decides; nothing more to propose
+                    rep.count("steps_dropped_value_shape")
+                    break
+                try:
                     bufs = encode_py(ver["pr"], t, ver["vals"], ver["dir"])
                 except Exception as exc:
                     events.append({"ev": "Raise", "what": "%s@%s@version-%d" % (drive.exc_signature(exc) + (vi,))})
@@ -98,7 +122,7 @@ def main(tier, replay=None):
                     break
                 ver["bufs"] = bufs
                 for j, (val, b) in enumerate(zip(ver["vals"], bufs)):
-                    events.append({"ev": "Encode", "t": t, "v": gen.sm_tree(t, val), "bytes": list(b)})
+                    events.append({"ev": "Encode", "t": t, "v": sms[j], "bytes": list(b)})
                     srcs.append(vi)
                     if prev is not None:
                         events.append({"ev": "SameBytes", "a": list(prev["bufs"][j]), "b": list(b)})
@@ -106,16 +130,38 @@ def main(tier, replay=None):
                 prev = ver
             wtraces.append({"id": "c12-chain-%d" % k, "t": {"k": "bool"}, "events": events})
             wmeta.append(srcs)
+        wverdicts, r2 = tlc.validate_traces("WireTrace", "WireTrace.cfg", wtraces)
+        rep.add_tlc(r2, "trace-validation:bytes of every version against Wire!Enc of the spec-resolved type")
+        # the specification's verdict per chain bounds what the C part may compare: versions from the first
+        # event that is not accepted (a rewrite Wire/Compiler call not layout preserving, or a failure) are out
+        good_upto = []
+        for srcs, (ok, why) in zip(wmeta, wverdicts):
+            if ok:
+                good_upto.append(None)
+            else:
+                idx = int(why.split(":")[0]) - 1
+                good_upto.append(srcs[idx] if 0 <= idx < len(srcs) else 0)
         # ---- the C encoders along the same chains: -O when every version is traditional, standard mode else ----
         worker = cdrive.Worker()
         try:
             builder = cdrive.CBuilder(scratch, cflags=("-O1",))
             ccases, cmeta2 = [], []
             for k, versions in enumerate(chains):
-                usable = [v for v in versions if v.get("bufs") is not None and v.get("t") is not None]
+                lim = len(versions) if good_upto[k] is None else good_upto[k]
+                usable = []
+                for v in versions[:lim]:
+                    if v.get("bufs") is None or v.get("t") is None:
+                        break
+                    if c_names_collide(v["pr"]):
+                        # C has no namespaces (docs/c-guide.rst, "Naming Prefix"): a rename onto a name that an
+                        # imported file also defines is not a rewrite the C output is expected to survive
+                        rep.count("c_versions_not_proposed_flat_name_collision")
+                        break
+                    usable.append(v)
                 if len(usable) < 2 or (k % 2 and tier == "quick"):
                     continue
-                trad = all(not gen.has_ext(v["t"]) for v in usable)
+                # traditional mode is a property of the whole text (a marker on a definition Top never uses counts)
+                trad = all("'" not in txt for v in usable for txt in (v["pr"].get("_texts") or {"": "'"}).values())
                 for vi, ver in enumerate(usable):
                     pr = dict(ver["pr"], rtype=ver["t"])
                     cc = cwire.CCase("c12-c-%d-%d" % (k, vi), pr, ver["vals"])
@@ -145,8 +191,6 @@ def main(tier, replay=None):
             pywire.validate_and_decide(rep, ccases, count_events=("CEncode",))
         finally:
             worker.close()
-        wverdicts, r2 = tlc.validate_traces("WireTrace", "WireTrace.cfg", wtraces)
-        rep.add_tlc(r2, "trace-validation:bytes of every version against Wire!Enc of the spec-resolved type")
     rep.cov["traces_validated_against_impl"] = len(wtraces)
     for k, (versions, tr, srcs, (ok, why)) in enumerate(zip(chains, wtraces, wmeta, wverdicts)):
         nenc = len([e for e in tr["events"] if e["ev"] == "Encode"])
